@@ -277,7 +277,9 @@ def enumExact (decls : List Decl) (r : Reps) : Nat → Ty → List JsVal × Bool
       | some rt =>
         let (xs, cut2) := enumExact decls r n rt
         let xs3 := xs.take 3
-        let tails : List (List JsVal) := [[]] ++ xs3.map (fun x => [x]) ++ xs3.flatMap (fun x => xs3.map fun y => [x, y])
+        -- (longer tails too, up to the longest tuple in sight: the meet of `[...T[]]` with `[T, T, T]` has values of length 3 only)
+        let longs : List (List JsVal) := ((List.range (r.maxLen + 1)).drop 3).flatMap fun k => xs3.map fun x => replicateList k x
+        let tails : List (List JsVal) := [[]] ++ xs3.map (fun x => [x]) ++ xs3.flatMap (fun x => xs3.map fun y => [x, y]) ++ longs
         let all := heads.flatMap fun h => tails.map fun tl => JsVal.arr (h ++ tl)
         (all.take (r.cap * 3), cut0 || cut1 || cut2 || xs.length > 3 || all.length > r.cap * 3))
     | .union ts =>
